@@ -38,6 +38,7 @@ typedef struct reg {
 	int      pid, status;
 	uint64_t exit_at;
 	int      relaxed;               /* registered on the virtual thread: served by any worker, conservation not exact */
+	uint64_t close_seq, arm_seq;    /* event sequence numbers of the peer close and of the last (re)arming */
 	int      outside_inflight;      /* a control call issued from OUTSIDE the owning thread is executing */
 	int      fuzzy;                 /* an event fired while such a call was in flight: which arming it belongs to is undecidable */
 	int      ctl_busy;              /* a control call on this registration is executing (two concurrent ones are the caller's race) */
@@ -162,6 +163,11 @@ static void ev_cb(tp_event_p ev, tp_udata_p u) {
 	case RK_PIPE_W: case RK_SOCK_W: {
 		int er = 0 != (ev->flags & (TP_F_ERROR | TP_F_EOF));
 		if (er && !r->peer_closed) { sim_violation("ev-false-eof", "slot %d: write event got EOF/ERROR flags (%x) although the peer is open", r->slot, ev->flags); return; }
+		if (!er && r->peer_closed && r->close_seq && r->arm_seq > r->close_seq && !r->relaxed) {
+			/* armed after the peer had gone: what makes it fire is the error/hang-up condition, and it must say so */
+			sim_violation("ev-missed-eof", "slot %d (kind %d): write event armed after the peer closed fired without TP_F_EOF/TP_F_ERROR (flags %x)", r->slot, r->kind, ev->flags);
+			return;
+		}
 		if (!er && r->wr_full) {
 			if (r->relaxed) { sim_probe("ev.pvt_herd_spurious"); break; }
 			sim_violation("ev-spurious", "slot %d: write event fired although the descriptor is full", r->slot); return;
@@ -331,6 +337,7 @@ static void c06_ctl(const op_t *op, reg *r, int slot) {
 		if (r->kind == RK_TIMER && (ff & TP_FF_T_ABSTIME)) data += (sim_realtime_offset() + sim_now()) / unit_ns(ff);
 		/* the registration may fire before the call returns (it is live as soon as it is installed) */
 		r->registered = 1; r->enabled = 1; r->flags = fl; r->fire_since_arm = 0; r->late_allowed = 0;
+		r->arm_seq = sim_evseq();
 		if (r->kind == RK_TIMER) timer_model_arm(r, fl, ff, data);
 		rc = tpt_ev_add_args(reg_tpt(r), kind_event(r->kind), fl, ff, data, &r->u);
 		sim_log("add slot=%d kind=%d thr=%d fl=%x ff=%x data=%llu -> %d", slot, r->kind, r->thr, fl, ff, (unsigned long long)data, rc);
@@ -366,6 +373,7 @@ static void c06_ctl(const op_t *op, reg *r, int slot) {
 			return;
 		}
 		r->registered = 1; r->enabled = 1; r->flags = fl; r->fire_since_arm = 0; r->late_allowed = 0;
+		r->arm_seq = sim_evseq();
 		r->wr_budget = 1 + (int)item_get(it, "wb", 2);
 		if (r->kind == RK_TIMER) {
 			/* the clock of an existing timer object is fixed at creation: absolute/relative must match it */
@@ -436,7 +444,7 @@ static void c06_other(const op_t *op, reg *r, int slot) {
 		} else if (is_write_kind(r->kind)) {
 			if (r->peer < 0) return;
 			if (how == 1 || how == 2) {
-				close(r->peer); sim_fd_forget(r->peer); r->peer = -1; r->peer_closed = 1; r->wr_full = 0; sim_probe("ev.peer_close");
+				close(r->peer); sim_fd_forget(r->peer); r->peer = -1; r->peer_closed = 1; r->wr_full = 0; r->close_seq = sim_evseq(); sim_probe("ev.peer_close");
 			} else if (r->wr_full) {
 				char buf[4096];
 				while (read(r->peer, buf, sizeof(buf)) > 0) { }
@@ -470,6 +478,15 @@ static void c06_other(const op_t *op, reg *r, int slot) {
 		case 7: ev = TP_EV_TIMER; ff = 0x8; bu.ident = 77; break;
 		case 8: bu.ident = (uintptr_t)5000; break;             /* beyond the descriptor table */
 		case 9: ev = TP_EV_PROC; ff = 0x2; bu.ident = 4999; break;
+		}
+		if ((what / 10) % 3 == 2) {
+			/* unknown filter-flag bits in the upper half only */
+			fl = 0; bu.cb_func = ev_cb; tpt = PW->thr[0]; bu.ident = (uintptr_t)p[0];
+			switch (what % 3) {
+			case 0: ev = TP_EV_READ; ff = 0x10000; break;
+			case 1: ev = TP_EV_TIMER; ff = TP_FF_T_MSEC | 0x80000000u; bu.ident = 78; break;
+			default: ev = TP_EV_WRITE; ff = 0x00400000; bu.ident = (uintptr_t)p[1]; break;
+			}
 		}
 		rc = tpt_ev_add_args(tpt, ev, fl, ff, 5, &bu);
 		sim_log("bad what=%d -> %d", what, rc);
